@@ -161,18 +161,21 @@ def snp_events(run, tier, seed, tag, ks=None, n=None):
     return events
 
 
-def indel_events(run, tier, seed, tag):
+def indel_events(run, tier, seed, tag, ks=None, fixed_len=None, n=None):
+    """ks / fixed_len / n given: one class of the stated domain (these k, this indel length), non-tandem only."""
     rng = random.Random(seed)
-    n = 36 if tier == "quick" else 360
+    one_class = fixed_len is not None
+    ks = ks or [11, 15, 21, 31]
+    n = n or (36 if tier == "quick" else 360)
     sb = skacli.Sandbox(tag)
     events = []
     try:
         for ci in range(n):
-            k = rng.choice([11, 15, 21, 31])
+            k = rng.choice(ks)
             ns = rng.randint(3, 8)
             nind = rng.randint(1, 3)
             length = rng.randint(10 * k + nind * 5 * k, 14 * k + nind * 6 * k)
-            sc = derive.lo_indel_scenario(rng, k, ns, length, nind, tandem=(ci % 3 == 2))
+            sc = derive.lo_indel_scenario(rng, k, ns, length, nind, tandem=(ci % 3 == 2 and not one_class), fixed_len=fixed_len)
             if sc is None:
                 continue
             names = ["i%d_%d" % (ci, i) for i in range(ns)]
